@@ -8,7 +8,12 @@ the two sides differ in known structure (if necessary after one more loop iterat
   D1  success flag only from the convergence test, on the returned point, on its own gradient, with a tolerance comparison of matching
       homogeneity (an upper bound on a norm of the residual, false for NaN); in nonlinear_equation_solve objective.p is the requested p
       whenever the solve starts and still the old p when the warm start runs; the flag returned to the caller is the solver's flag;
-      Objective.value / gradient / hessian_vec evaluate f / grad(f, 0) under the *current* self.p;
+      Objective.value / gradient / hessian_vec evaluate f / grad(f, 0) under the *current* self.p; the same for every class derived from
+      Objective (ScaledObjective, the constrained objectives: the whole constructor chain incl. super().__init__ is interpreted, methods are
+      resolved along the MRO): value and gradient are those of one stored function F, and the parameter flow through F -- jit wrappers,
+      closures, partial applications, derivative transforms are seen through -- hands the current self.p, not the parameters the constructor
+      stored (and not parameters read from the object while a jit-compiled function is traced), to every function of the caller that is
+      evaluated at the call-time point;
       settings factories fill fields by name; the step labels that mean "on the boundary" are the ones is_on_boundary recognises;
   D2  descent (default mode): every newly reported, non-converged iterate P is accepted on a path that decides ratio >= c >= 0, the sign
       of the ratio's denominator is decided on that path, the numerator is -(value(P) - value(current iterate)) -- so the reference value
@@ -33,7 +38,8 @@ RULE_TEXT = ("obligations = (exit of the driver x guarded-success / returned poi
              "parameter assignment ordering; distinct = distinct (rule, function, construct)")
 EXPLANATION = ("Path-enumerating symbolic execution (rules/C01_symx.py: exact polynomial values over opaque atoms, helpers / closures inlined, "
                "per-path outcome sets {<0, =0, >0, NaN} of every decided comparison, loops generalised by the relations every iteration preserves) of "
-               "EquationSolver.trust_region_minimize / is_converged / nonlinear_equation_solve and of Objective's evaluation methods. "
+               "EquationSolver.trust_region_minimize / is_converged / nonlinear_equation_solve and of the evaluation methods of Objective and of every class "
+               "derived from it (constructor chain, stored closures and derivative transforms followed down to the functions the caller supplied). "
                "Proves for every symbolic path of the driver: a True flag is only returned behind the convergence test of the returned point's own "
                "gradient; a newly reported iterate P satisfies objective.value(P) - objective.value(current) <= 0 in default mode (ratio >= c >= 0, sign of "
                "the denominator decided on the path, numerator = -(value(P) - value(current))); every exit returns the last reported point; NaN ratios "
@@ -83,6 +89,7 @@ def run(ctx):
     ctx.trust("IEEE-754: every ordered comparison with a NaN operand is false")
     ctx.trust("rho = N/M >= c >= 0 with M >= 0 implies N >= 0 (M = 0 gives +-inf or NaN; -inf and NaN fail rho >= c)")
     ctx.trust("objective.value / objective.gradient are functions of the point and of objective.p only (update_precond / check_stability do not change them)")
+    ctx.trust("a jit-compiled function reads attributes of Python objects only while it is traced; calls with arguments of the same structure reuse the trace")
     ctx.assume("default mode (settings.use_incremental_objective is False) for the descent clause, as in the property text")
     ctx.assume("a callback is supplied (the reported sequence is what the callback sees); the exits and their flags do not depend on it")
 
